@@ -55,10 +55,7 @@ MonitorErrors(r) ==
           THEN (IF \E a, b \in DcIdx(r) : a < b /\ r.obs[a].delay > r.obs[b].delay
                 THEN {<<"DelayDecreases", [j \in 1..Len(r.obs) |-> r.obs[j].delay]>>} ELSE {})
                \cup {<<"ChainDelayWrong", j, r.obs[j].delay, r.obs[j].true_delay>> :
-                       j \in {j \in DcIdx(r) : r.chain /\ r.equal_fwd /\ ~r.obs[j].before_ref /\ r.obs[j].dc_path
-                                               /\ r.obs[j].delay # r.obs[j].true_delay}}
-               \cup {<<"ChainDelayWrongBehindNonDc", j, r.obs[j].delay, r.obs[j].true_delay>> :
-                       j \in {j \in DcIdx(r) : r.chain /\ r.equal_fwd /\ ~r.obs[j].before_ref /\ ~r.obs[j].dc_path
+                       j \in {j \in DcIdx(r) : r.chain /\ r.equal_fwd /\ ~r.obs[j].before_ref
                                                /\ r.obs[j].delay # r.obs[j].true_delay}}
                \cup {<<"OffsetWrong", j, r.obs[j].offset, SubLimbs(r.now, r.obs[j].rx_time)>> :
                        j \in {j \in DcIdx(r) : LET e == SubLimbs(r.now, r.obs[j].rx_time) IN
